@@ -61,9 +61,11 @@ def run(ctx):
     for _ in range(n_sets):
         ks, names = make_set(rng, rng.randrange(1, 9), private=False)
         kids = [k.kid for k in ks.keys]
-        probes = kids + [None, "unknown", "", 7, True, ["x"], kids[0] + "x"]
+        if any(k is None for k in kids):
+            ctx.report("a member of a KeySet has no kid (every member gets one when the set is built)", {"kids": [repr(k) for k in kids]}, "keyset:member-without-kid")
+        probes = kids + [None, "unknown", "", 7, True, ["x"], str(kids[0]) + "x"]
         # other names a key could be known by are not its kid: the RFC 7638 thumbprint of a member that carries an explicit kid
-        probes += [k.thumbprint() for k in ks.keys if k.kid != k.thumbprint()][:3]
+        probes += [k.thumbprint() for k in ks.keys if k.kid is not None and k.kid != k.thumbprint()][:3]
         for kid in probes:
             try:
                 lines.append(f"key.getbykid {J.enc_keyarg(ks)} {enc_jval(kid)}")
